@@ -7,6 +7,7 @@ import IslaVerif.Driver.C20
 import IslaVerif.Driver.C19
 import IslaVerif.Driver.C17
 import IslaVerif.Driver.C15
+import IslaVerif.Driver.C05
 namespace IslaVerif.Driver
 open IslaVerif
 
@@ -20,6 +21,7 @@ def dispatch : Sexp → Sexp
   | .list (.atom "c19" :: rest) => C19.handle rest
   | .list (.atom "c17" :: rest) => C17.handle rest
   | .list (.atom "c15" :: rest) => C15.handle rest
+  | .list (.atom "c05" :: rest) => C05.handle rest
   | _ => .atom "bad-request"
 
 end IslaVerif.Driver
